@@ -10,7 +10,9 @@ class CollectList(Aggregation):
         self.items = []
 
     def merge(self, row, schema):
-        self.items.append(self.column.eval(row, schema))
+        value = self.column.eval(row, schema)
+        if value is not None:
+            self.items.append(value)
 
     def mergeStats(self, other, schema):
         self.items += other.items
@@ -31,7 +33,9 @@ class CollectSet(Aggregation):
         self.items = set()
 
     def merge(self, row, schema):
-        self.items.add(self.column.eval(row, schema))
+        value = self.column.eval(row, schema)
+        if value is not None:
+            self.items.add(value)
 
     def mergeStats(self, other, schema):
         self.items |= other.items
@@ -52,21 +56,31 @@ class SumDistinct(Aggregation):
         self.items = set()
 
     def merge(self, row, schema):
-        self.items.add(self.column.eval(row, schema))
+        value = self.column.eval(row, schema)
+        if value is not None:
+            self.items.add(value)
 
     def mergeStats(self, other, schema):
         self.items |= other.items
 
     def eval(self, row, schema):
-        return sum(self.items)
+        return sum(self.items) if self.items else None
 
     def args(self):
         return (self.column,)
 
 
+class _NoValue:
+    """Marks an aggregation that has not seen a value yet.
+
+    A class keeps its identity through copy.deepcopy() and pickle, which
+    aggregations go through for every group and partition.
+    """
+
+
 class First(Aggregation):
     pretty_name = "first"
-    _sentinel = object()
+    _sentinel = _NoValue
 
     def __init__(self, column, ignore_nulls):
         super().__init__(column)
@@ -79,6 +93,8 @@ class First(Aggregation):
             self.value = self.column.eval(row, schema)
 
     def mergeStats(self, other, schema):
+        if other.value is First._sentinel:
+            return
         if self.value is First._sentinel or (self.ignore_nulls and self.value is None):
             self.value = other.value
 
@@ -130,18 +146,20 @@ class CountDistinct(Aggregation):
         self.items = set()
 
     def merge(self, row, schema):
-        self.items.add(tuple(
+        values = tuple(
             col.eval(row, schema) for col in self.columns
-        ))
+        )
+        if all(value is not None for value in values):
+            self.items.add(values)
 
     def mergeStats(self, other, schema):
-        self.items += other.items
+        self.items |= other.items
 
     def eval(self, row, schema):
         return len(self.items)
 
     def args(self):
-        return f"DISTINCT {','.join(self.columns)}"
+        return (f"DISTINCT {', '.join(str(column) for column in self.columns)}",)
 
 
 class ApproxCountDistinct(Aggregation):
@@ -153,10 +171,12 @@ class ApproxCountDistinct(Aggregation):
         self.items = set()
 
     def merge(self, row, schema):
-        self.items.add(self.column.eval(row, schema))
+        value = self.column.eval(row, schema)
+        if value is not None:
+            self.items.add(value)
 
     def mergeStats(self, other, schema):
-        self.items += other.items
+        self.items |= other.items
 
     def eval(self, row, schema):
         return len(self.items)
